@@ -1,5 +1,5 @@
 (* C11: bounds on what the analyzer models retain and on the work per packet. *)
-From Coq Require Import List NArith Bool Lia Permutation.
+From Coq Require Import List NArith Bool Lia Permutation Arith PeanoNat.
 From Coq Require Import Strings.Byte.
 From HN Require Import Base.Bytes Base.Cache Base.Tcp Model.HttpFlow Model.TlsFlow Model.Tracker Model.Cost
   Proofs.CacheProofs.
@@ -376,41 +376,52 @@ Section HttpBound.
   Definition all_a (cd : list tcpdata) : Prop := Forall (fun td => Forall (fun b => b = abyte) (td_data td)) cd.
   Definition gstate (cap : N) (cd : list tcpdata) : state := mkCache cap [(gkey, mkFlow 1 2 3 4 cd [] false false)].
 
-  Lemma gstep cap cd i : all_a cd ->
+  Definition below (i : nat) (cd : list tcpdata) : Prop := Forall (fun td => td_seq td < 1001 + N.of_nat i) cd.
+  Lemma below_no_retrans i cd : below i cd -> is_retrans cd (mkTd (1001 + N.of_nat i) [abyte]) = false.
+  Proof.
+    intros H. unfold is_retrans. destruct (existsb _ _) eqn:E; [|reflexivity]. exfalso.
+    apply existsb_exists in E. destruct E as (x & Hin & Hx). apply andb_true_iff in Hx. destruct Hx as [H1 _].
+    apply N.eqb_eq in H1. cbn in H1. unfold below in H. rewrite Forall_forall in H. specialize (H x Hin). lia.
+  Qed.
+
+  Lemma gstep cap cd i : all_a cd -> below i cd ->
     step parse_req parse_resp (gstate cap cd) (gdata i)
     = (gstate cap (cd ++ [mkTd (1001 + N.of_nat i) [abyte]]), ONone).
   Proof.
-    intros Ha. unfold step, gstate, gdata. cbn [g_src g_dst g_sport g_dport cache_get c_entries assoc_get].
+    intros Ha Hb. unfold step, gstate, gdata. cbn [g_src g_dst g_sport g_dport cache_get c_entries assoc_get].
     change (fkey_eqb gkey (1, 2, 3, 4)) with true. cbn iota.
     unfold on_flow. cbn [g_pay g_src g_sport g_seq f_cip f_cport f_cparsed f_cdata f_sdata f_sip f_sport f_sparsed].
-    change (1 =? 1) with true. change (3 =? 3) with true. cbn [andb negb].
+    change (1 =? 1) with true. change (3 =? 3) with true. rewrite (below_no_retrans i cd Hb). cbn [andb negb].
     rewrite never.
     - destruct (has_complete _ _ _); unfold finish, set_flow; cbn; reflexivity.
     - apply full_data_all. apply Forall_app. split; [exact Ha|]. repeat constructor.
   Qed.
 
-  Lemma gcost cap cd i : all_a cd ->
+  Lemma gcost cap cd i : all_a cd -> below i cd ->
     cost_http (gstate cap cd) (gdata i) = 1 + 3 * (td_bytes cd + 1).
   Proof.
-    intros Ha. unfold cost_http, gstate, gdata. cbn [g_src g_dst g_sport g_dport cache_get c_entries assoc_get].
+    intros Ha Hb. unfold cost_http, gstate, gdata. cbn [g_src g_dst g_sport g_dport cache_get c_entries assoc_get].
     change (fkey_eqb gkey (1, 2, 3, 4)) with true. cbn iota.
     unfold cost_on_flow. cbn [g_pay g_src g_sport g_seq f_cip f_cport f_cparsed f_cdata].
-    change (1 =? 1) with true. change (3 =? 3) with true. cbn [andb negb].
+    change (1 =? 1) with true. change (3 =? 3) with true. rewrite (below_no_retrans i cd Hb). cbn [andb negb].
     rewrite td_bytes_app. unfold td_bytes, len_N. cbn. lia.
   Qed.
 
-  Lemma grun cap n : forall cd i, all_a cd ->
+  Lemma grun cap n : forall cd i, all_a cd -> below i cd ->
     exists cd', fst (run parse_req parse_resp (gstate cap cd) (map gdata (seq i n))) = gstate cap cd'
-                /\ all_a cd' /\ td_bytes cd' = td_bytes cd + N.of_nat n.
+                /\ all_a cd' /\ below (i + n) cd' /\ td_bytes cd' = td_bytes cd + N.of_nat n.
   Proof.
-    induction n as [|n IH]; intros cd i Ha; cbn [seq map run].
-    - exists cd. cbn. repeat split; [exact Ha | lia].
-    - rewrite (gstep cap cd i Ha).
+    induction n as [|n IH]; intros cd i Ha Hb; cbn [seq map run].
+    - exists cd. cbn. rewrite Nat.add_0_r. repeat split; [exact Ha | exact Hb | lia].
+    - rewrite (gstep cap cd i Ha Hb).
+      assert (Hb' : below (S i) (cd ++ [mkTd (1001 + N.of_nat i) [abyte]])).
+      { apply Forall_app. split; [eapply Forall_impl; [|exact Hb]; cbn; intros; lia | repeat constructor; cbn; lia]. }
       assert (Ha' : all_a (cd ++ [mkTd (1001 + N.of_nat i) [abyte]])).
       { apply Forall_app. split; [exact Ha|]. repeat constructor. }
-      destruct (IH _ (S i) Ha') as (cd' & E & A & T).
+      destruct (IH _ (S i) Ha' Hb') as (cd' & E & A & B' & T).
       destruct (run parse_req parse_resp _ (map gdata (seq (S i) n))) as [st2 os]. cbn [fst] in *.
-      exists cd'. repeat split; [exact E | exact A|]. rewrite T, td_bytes_app. unfold td_bytes, len_N. cbn. lia.
+      exists cd'. repeat split; [exact E | exact A | replace (i + S n)%nat with (S i + n)%nat by lia; exact B' |].
+      rewrite T, td_bytes_app. unfold td_bytes, len_N. cbn. lia.
   Qed.
 
   Theorem http_unbounded :
@@ -428,9 +439,10 @@ Section HttpBound.
       assert (S0 : step parse_req parse_resp (cache_new 1) gsyn = (gstate 1 [mkTd 1000 []], ONone)) by reflexivity.
       rewrite S0.
       assert (A0 : all_a [mkTd 1000 []]) by (repeat constructor).
-      destruct (grun 1 k [mkTd 1000 []] 0%nat A0) as (cd' & E & A & T).
+      assert (B0 : below 0 [mkTd 1000 []]) by (repeat constructor; cbn; lia).
+      destruct (grun 1 k [mkTd 1000 []] 0%nat A0 B0) as (cd' & E & A & Bk & T).
       destruct (run parse_req parse_resp _ (map gdata (seq 0 k))) as [st2 os]. cbn [fst] in *. subst st2.
-      rewrite (gcost 1 cd' k A). unfold retained_http, gstate. cbn [c_entries map snd sum_N fold_right].
+      rewrite (gcost 1 cd' k A Bk). unfold retained_http, gstate. cbn [c_entries map snd sum_N fold_right].
       unfold flow_retained. cbn [f_cdata f_sdata]. rewrite T. unfold td_bytes at 2 3. unfold len_N. cbn. subst k. lia.
   Qed.
 End HttpBound.
